@@ -90,7 +90,7 @@ CHECK_DEADLOCK FALSE
 # --------------------------------------------------------------------------- scenario generation (TLC)
 
 def emit_scenarios(ck, label, **kw):
-    cfg = os.path.join(vlib.SPEC, f"MC_Lifecycle_{label}.gen.cfg")
+    cfg = os.path.join(vlib.SPEC, f"MC_Lifecycle_{label}_{os.getpid()}.gen.cfg")
     mc_cfg(cfg, emit=True, liveness=False, **kw)
     sink = os.path.join(ck.dir, f"scen_{label}.ndjson")
     res = vlib.tlc("MC_Lifecycle", os.path.basename(cfg), tags=("SCEN",), sinks={"SCEN": sink}, timeout=1500,
@@ -285,7 +285,7 @@ def plan(tier):
 def design_checks(ck, pl, results):
     """TLC on the intended design (Deviations = {}): every property must hold."""
     for label, kw in pl["design"]:
-        cfg = os.path.join(vlib.SPEC, f"MC_Lifecycle_design_{label}.gen.cfg")
+        cfg = os.path.join(vlib.SPEC, f"MC_Lifecycle_design_{label}_{os.getpid()}.gen.cfg")
         mc_cfg(cfg, **kw)
         res = vlib.tlc("MC_Lifecycle", os.path.basename(cfg), workers=6, timeout=2400,
                        extra=("-lncheck", "final"), tag=f"lifecycle_design_{label}", heap="8g")
@@ -525,7 +525,7 @@ def selftest():
               "SendCheckThenPark": "NoHang", "ExitDoesNotWake": "NoHang", "GraceNotRearmed": "ReportsTerminal"}
     ok = True
     for dev, prop in expect.items():
-        cfg = os.path.join(vlib.SPEC, f"MC_Lifecycle_self_{dev}.gen.cfg")
+        cfg = os.path.join(vlib.SPEC, f"MC_Lifecycle_self_{dev}_{os.getpid()}.gen.cfg")
         # (a close() missed by the sender is healed by the wake-up at the end of the association, so the
         # check-then-park window only shows together with ExitDoesNotWake)
         mc_cfg(cfg, devs=[dev] + (["ExitDoesNotWake"] if dev == "SendCheckThenPark" else []), max_events=1,
